@@ -46,6 +46,9 @@ Theorem C02_journal_is_on_disk : check_journal_on_disk = true.
 Proof. exact journal_on_disk. Qed.
 Theorem C02_synchronous_writes : check_synchronous_on = true.
 Proof. exact synchronous_on. Qed.
+(* the mark of a synced height is a plain INSERT under PRIMARY KEY(height): committing a height twice is refused *)
+Theorem C02_height_mark_is_a_plain_insert : check_height_mark_plain_insert = true.
+Proof. exact height_mark_plain_insert. Qed.
 
 Example C02_example :
   (* a run of the example chain with a failed attempt, a crash and an API request thrown in *)
